@@ -57,6 +57,7 @@ fam("trig", 2, 2, lambda k: [math.sin(k[0]) + 0.5 * k[1], math.cos(k[1]) + 0.25 
 fam("cubic", 1, 1, lambda k: [k[0] ** 3 - 2.0 * k[0] + 2.0], [-1.7692923542386314], [0.0])              # Newton 2-cycle 0 <-> 1
 fam("atan", 1, 1, lambda k: [math.atan(k[0])], [0.0])                                               # Newton overshoots for |x| > 1.39
 fam("bump", 2, 2, lambda k: [math.atan(k[0]) + 0.1 * k[1], k[1] ** 3 - 2.0 * k[1] + 2.0 + 0.1 * k[0]], [0.0, 0.0], [0.0, 0.0])
+fam("posq", 2, 2, lambda k: [k[0] * k[0] + 1.0, k[1] * k[1] + 2.0 + 0.5 * k[0]], [1.5, 0.5])     # strictly positive outputs (optimize_log)
 fam("ident2", 2, 2, lambda k: [k[0], k[1]], [-10.0, -10.0])
 fam("ident3", 3, 3, lambda k: [k[0], k[1], k[2]], [8.0, -6.0, 3.0])
 
@@ -131,7 +132,7 @@ class Problem:
                              max_step=None if s["max_step"] is None else s["max_step"][i], tag=self.vtags[i],
                              active=(i not in s["v_inactive"])))
         targets = [Target(i, self.tvals[i], tol=self.tols[i], weight=None if s["tw"] is None else s["tw"][i],
-                          action=self.action, tag=self.ttags[i]) for i in range(nt)]
+                          action=self.action, tag=self.ttags[i], optimize_log=(i in s.get("optlog", ()))) for i in range(nt)]
         self.opt = Optimize(vary, targets, n_steps_max=s["nsm"], restore_if_fail=s["restore"], show_call_counter=False,
                             verbose=False, solver_options=s.get("solver_options", {}))
         if s["dv"]:
